@@ -52,6 +52,60 @@ pub fn ark_entry_points(b: &[u8; 32]) -> Vec<(&'static str, Result<ark::Element,
         ark::Encoding::deserialize_compressed(&b[..]).map_err(|_| DecErr::Other).and_then(|e| e.vartime_decompress().map_err(Into::into)),
     ));
     v.push(("ark:Encoding::from([u8;32])->try_into", ark::Element::try_from(ark::Encoding::from(*b)).map_err(Into::into)));
+    // a reader whose read() is interrupted now and then: ErrorKind::Interrupted is non-fatal by the Read
+    // contract (no byte is lost), a deserialiser has to retry
+    struct Interrupting<'a> {
+        data: &'a [u8],
+        tick: u32,
+    }
+    impl<'a> std::io::Read for Interrupting<'a> {
+        fn read(&mut self, buf: &mut [u8]) -> std::io::Result<usize> {
+            self.tick += 1;
+            if self.tick % 2 == 1 {
+                return Err(std::io::Error::new(std::io::ErrorKind::Interrupted, "interrupted"));
+            }
+            let n = buf.len().min(5).min(self.data.len());
+            buf[..n].copy_from_slice(&self.data[..n]);
+            self.data = &self.data[n..];
+            Ok(n)
+        }
+    }
+    v.push(("ark:Element::deserialize_compressed(interrupted reader)", ark::Element::deserialize_compressed(Interrupting { data: &b[..], tick: 0 }).map_err(|_| DecErr::Other)));
+    v.push((
+        "ark:AffinePoint::deserialize_compressed(interrupted reader)",
+        <ark::Element as ark_ec::CurveGroup>::Affine::deserialize_compressed(Interrupting { data: &b[..], tick: 0 }).map(|a| a.into_group()).map_err(|_| DecErr::Other),
+    ));
+    // containers read their items with Validate::No and validate afterwards; on the pinned tree that mode is
+    // `unimplemented!()`, which accepts nothing: a "not implemented" panic is no verdict, anything else is
+    {
+        use std::panic::{catch_unwind, AssertUnwindSafe};
+        let mut framed = 1u64.to_le_bytes().to_vec();
+        framed.extend_from_slice(&b[..]);
+        let mut opt = vec![1u8];
+        opt.extend_from_slice(&b[..]);
+        let tries: Vec<(&'static str, Box<dyn Fn() -> Result<ark::Element, DecErr>>)> = vec![
+            ("ark:Vec<Element>::deserialize_compressed", Box::new({ let f = framed.clone(); move || Vec::<ark::Element>::deserialize_compressed(&f[..]).map_err(|_| DecErr::Other).and_then(|v| v.first().copied().ok_or(DecErr::Other)) })),
+            ("ark:[Element;1]::deserialize_compressed", Box::new({ let bb = *b; move || <[ark::Element; 1]>::deserialize_compressed(&bb[..]).map(|a| a[0]).map_err(|_| DecErr::Other) })),
+            ("ark:(Element,)::deserialize_compressed", Box::new({ let bb = *b; move || <(ark::Element,)>::deserialize_compressed(&bb[..]).map(|a| a.0).map_err(|_| DecErr::Other) })),
+            ("ark:Option<Element>::deserialize_compressed", Box::new({ let f = opt.clone(); move || Option::<ark::Element>::deserialize_compressed(&f[..]).map_err(|_| DecErr::Other).and_then(|o| o.ok_or(DecErr::Other)) })),
+            ("ark:Element::deserialize_compressed_unchecked", Box::new({ let bb = *b; move || ark::Element::deserialize_compressed_unchecked(&bb[..]).map_err(|_| DecErr::Other) })),
+        ];
+        for (name, f) in tries {
+            match catch_unwind(AssertUnwindSafe(|| f())) {
+                Ok(r) => {
+                    // the unchecked mode is allowed to skip validation only of what it documents (nothing here is
+                    // documented): its verdict is compared like the others when it returns at all
+                    v.push((name, r));
+                }
+                Err(p) => {
+                    let msg = p.downcast_ref::<&str>().map(|s| s.to_string()).or_else(|| p.downcast_ref::<String>().cloned()).unwrap_or_default();
+                    if !msg.contains("not implemented") {
+                        v.push((name, Err(DecErr::Panicked)));
+                    }
+                }
+            }
+        }
+    }
     v
 }
 
